@@ -77,6 +77,7 @@ def run(check, prog):
     from . import c06
     c06.channel_axis_first(check, prog)
     dimension_names(check, prog)
+    description_probe(check, prog)
 
 
 NAME_SINKS = ('transpose', 'rename', 'stack', 'unstack', 'expand_dims', 'swap_dims')
@@ -145,6 +146,61 @@ def dimension_names(check, prog):
         check.ok('U9-dimension-names-stay-str', 'package',
                  'no dimension-naming argument is computed by numpy from .dims '
                  '(%d call sites)' % total)
+
+
+def description_probe(check, prog):
+    """U10: reading a raster image does not depend on what its description tag
+    says.  load_image and load parse the TIFF ImageDescription (tag 270) as yaml
+    to find HoloPy's own metadata; a description written by other software is
+    free text and need not parse.  Rule: every yaml parse of a description tag
+    sits in a try whose handlers catch the parser's errors (yaml.YAMLError or a
+    base of it) -- in load_image the handler passes, in load it reports
+    NoMetadata."""
+    m = prog.modules['holopy.core.io.io']
+    sites = []
+
+    def handlers_of(path):
+        out = []
+        for node, field in path:
+            if isinstance(node, ast.Try) and field == 'body':
+                for h in node.handlers:
+                    if h.type is None:
+                        out.append('BaseException')
+                    else:
+                        ts = h.type.elts if isinstance(h.type, ast.Tuple) else [h.type]
+                        out += [ast.unparse(t) for t in ts]
+        return out
+
+    def walk(node, path, fn):
+        if isinstance(node, ast.FunctionDef):
+            fn = node.name
+        if isinstance(node, ast.Call) and ast.unparse(node.func) in (
+                'yaml.safe_load', 'yaml.load') and any(
+                isinstance(y, ast.Constant) and y.value == 270
+                for a in node.args for y in ast.walk(a)):
+            sites.append((fn, node.lineno, handlers_of(path)))
+        for field, value in ast.iter_fields(node):
+            kids = value if isinstance(value, list) else [value]
+            for k in kids:
+                if isinstance(k, ast.AST):
+                    walk(k, path + [(node, field)], fn)
+    walk(m.tree, [], None)
+    check.need('yaml parses of the TIFF description tag', len(sites), 2,
+               'U10-description-probe', 'holopy.core.io.io',
+               'load_image and load look for HoloPy metadata in tag 270', m.relpath)
+    good = ('yaml.YAMLError', 'YAMLError', 'Exception', 'BaseException',
+            'yaml.error.YAMLError')
+    for fn, line, hs in sites:
+        check.require(any(h in good for h in hs), 'U10-description-probe',
+                      '%s description parse' % fn,
+                      'a description that is not valid yaml is handled (handlers: %s)'
+                      % ', '.join(hs), '%s:%d' % (m.relpath, line),
+                      fail_detail='the yaml parse of the description tag in %s is '
+                      'guarded only by %s: an ordinary TIFF whose ImageDescription '
+                      'holds free text of the acquisition software ("Exposure: 10 ms'
+                      '\\nNote: gain: high", a leading tab, "@ 25 fps") raises '
+                      'yaml.scanner.ScannerError and cannot be loaded' % (
+                          fn, ', '.join(hs) or 'nothing'))
 
 
 def load_unpacks(check, prog):
@@ -838,10 +894,37 @@ def save_dispatch(check, prog):
                   'a name with a TIFF extension -> save_image(outf, obj), nothing else',
                   loc)
     sv = calls('._save')
-    ok = len(sv) == 1 and tuple(sv[0]['args']) == (obj, outf) and \
+    named = intern(('call', IO + 'default_extension', (outf,), ()))
+    ok = len(sv) == 1 and sv[0]['args'][0] == obj and \
+        tuple(sv[0]['args'][1:]) in ((outf,), (named,)) and \
         conds(sv[0]) == [(own, True)]
     check.require(ok, 'U2-save-dispatch', 'save [own saver]',
-                  'an object with _save is saved by obj._save(outf)', loc)
+                  'an object with _save is saved by obj._save(<file>)', loc)
+    # writer and reader agree on the file: load() opens default_extension(inf)
+    # for every HDF5 object, so that is the name every HDF5 branch of save()
+    # must write (a name without extension gets '.h5' on both sides)
+    ql = IO + 'load'
+    itl = Interp(prog, max_depth=1, opaque=[IO + 'default_extension',
+                                            IO + 'unpack_attrs'])
+    itl.analyze(ql)
+    inf = sym(prog.func(ql).args.args[0].arg)
+    rd = intern(('call', IO + 'default_extension', (inf,), ()))
+    opened = [c for c in itl.calls if c['name'] == 'xarray.open_dataset'] + \
+        [c for c in itl.calls if c['name'].endswith('._load')]
+    reads_named = bool(opened) and all(
+        any(a == rd for a in c['args']) for c in opened)
+    check.need('HDF5 readers in load()', len(opened), 2, 'U2-file-name-agreement',
+               'load readers', 'load() opens the dataset and hands results to their '
+               'own loader', prog.loc(ql, prog.func(ql)))
+    if reads_named and sv:
+        check.require(tuple(sv[0]['args'][1:]) == (named,), 'U2-file-name-agreement',
+                      'save [own saver] file name',
+                      'obj._save writes default_extension(outf), the name load() opens',
+                      loc, fail_detail='save hands %s to obj._save while load() opens '
+                      'default_extension(inf): hp.save(\'myfit\', result) writes '
+                      '\'myfit\' and hp.load(\'myfit\') looks for \'myfit.h5\' -- '
+                      'NoMetadata, where the same two calls work for an image' % (
+                          show(sv[0]['args'][1])[:60],))
     ss = calls('holopy.core.io.serialize.save')
     ok = len(ss) == 1 and tuple(ss[0]['args']) == (outf, obj) and \
         conds(ss[0]) == [(own, False), (img, False)]
